@@ -27,7 +27,7 @@ ASSUMPTIONS = ['a name defined only by two inner levels has no documented preced
                'at most one instance of a unique middleware type per list (O5)']
 REQUIRED_REACH = ['depth:2', 'depth:3', 'shadow:outer-over-app', 'shadow:outer-over-route', 'optout:slashes', 'optout:none',
                   'rebind:requested', 'redirect-under-prefix', 'error-through-outer-handler', 'reached-embedded-route',
-                  'factory:inner', 'factory:outer-fills-in', 'dup-unique-across-levels', 'both-rejected', 'prefix:root-slash', 'subclassed-middleware-type', 'optional-argument-from-enclosing-level',
+                  'factory:inner', 'factory:outer-fills-in', 'dup-unique-across-levels', 'both-rejected', 'prefix:root-slash', 'prefix:outside-ascii', 'same-middleware-object-on-two-levels:unique', 'same-middleware-object-on-two-levels:nonunique', 'subclassed-middleware-type', 'optional-argument-from-enclosing-level',
                   'error-handler-consumes-resource']
 NSHARDS = 16
 MODES = ['redirect', 'rewrite', 'strict']
@@ -50,7 +50,17 @@ class Gen(object):
         rng = self.rng
         self.n_mw += 1
         label = 'm%d' % self.n_mw
-        if self.types and rng.chance(0.35):
+        shareable = [t for t in self.types if not t['provides'] and not t['wants'] and not t.get('base')]   # (every level stays valid on its own)
+        if shareable and rng.chance(0.12):
+            # the very same middleware object listed at another level as well: one object is one type - kept once when the
+            # type is unique, two layers running the same functions when it is not (the flat application lists two
+            # instances of the type)
+            t = rng.pick(shareable)
+            t['aliased'] = True
+            self.n_aliases = getattr(self, 'n_aliases', 0) + 1
+            spec = {'label': label, 'trace_label': t['label'], 'alias_of': t['label'], 'type': t['type'], 'unique': t['unique'],
+                    'provides': [], 'wants': []}
+        elif self.types and rng.chance(0.35):
             t = rng.pick(self.types)          # share a type with another level
             spec = {'label': label, 'type': t['type'], 'unique': t['unique'], 'provides': [], 'wants': []}
         else:
@@ -93,6 +103,10 @@ class Gen(object):
             if depth < max_depth and rng.chance(0.55 if depth == 1 else 0.45):
                 sub = self.node(depth + 1, max_depth)
                 prefix = rng.pick(['/s%d' % self.n_app, '/s%d/' % self.n_app, '/s%d/t' % self.n_app, '/'])
+                if rng.chance(0.15):
+                    # prefixes outside ASCII: precomposed, decomposed (not NFC), compatibility characters, CJK
+                    prefix = rng.pick(['/caf\u00e9%d', '/cafe\u0301%d', '/\u212bng%d/', '/\u65e5\u672c%d', '/\ufb01%d/t']) % self.n_app
+                    self.n_text_prefix = getattr(self, 'n_text_prefix', 0) + 1
                 node['children'].append({'kind': 'app', 'prefix': prefix, 'inherit': rng.chance(0.7),
                                          'rebind': bool(node['factory'] and rng.chance(0.3)), 'node': sub})
             else:
@@ -157,6 +171,16 @@ def plant_conflict(rng, tree):
     subs = [c['node'] for c in tree['children'] if c['kind'] == 'app']
     if not subs:
         return
+
+    def unshare(node):
+        # every middleware an object of its own here (the planted offer belongs to one level)
+        for m in node['mws'] + [m for c in node['children'] if c['kind'] == 'route' for m in c['mws']]:
+            for k in ('alias_of', 'aliased', 'trace_label'):
+                m.pop(k, None)
+        for c in node['children']:
+            if c['kind'] == 'app':
+                unshare(c['node'])
+    unshare(tree)
     sub = rng.pick(subs)
     kind = rng.pick(['provides-provides', 'resource-provides'])
     if kind == 'provides-provides' and tree['mws'] and sub['mws'] and tree['mws'][0]['type'] != sub['mws'][0]['type']:
@@ -182,8 +206,13 @@ def sym(value, env):
     return 'other:' + tn
 
 
-def make_mw_instance(env, spec):
+def make_mw_instance(env, spec, share=False):
     from clastic import Middleware
+    if share and (spec.get('alias_of') or spec.get('aliased')):
+        key = spec.get('alias_of') or spec['label']
+        if key not in env.setdefault('inst', {}):
+            env['inst'][key] = make_mw_instance(env, dict(spec, label=key), share=False)
+        return env['inst'][key]
     cls = env['types'].get(spec['type'])
     if cls is None:
         base = Middleware
@@ -195,7 +224,7 @@ def make_mw_instance(env, spec):
         cls = env['types'][spec['type']] = type(str(spec['type']), (base,), {'unique': spec['unique']})
     inst = cls()
     inst.provides = tuple(spec['provides'])
-    label, provides, wants = spec['label'], list(spec['provides']), list(spec['wants'])
+    label, provides, wants = spec.get('trace_label') or spec['label'], list(spec['provides']), list(spec['wants'])
     src = ('def request(next%s):\n    return _hook(next, dict(%s))\n'
            % (''.join(', ' + w for w in wants), ', '.join('%s=%s' % (w, w) for w in wants)))
 
@@ -326,7 +355,7 @@ def res_objects(env, resources, where, none=()):
 def build_nested(env, node):
     from clastic import Application, Route, SubApplication
     app = Application([], resources=res_objects(env, node['resources'], node['label'], node.get('none_resources') or ()),
-                      middlewares=[make_mw_instance(env, m) for m in node['mws']],
+                      middlewares=[make_mw_instance(env, m, share=True) for m in node['mws']],
                       render_factory=make_factory(node['label']) if node['factory'] else None,
                       error_handler=make_handler(node['label'] if node['eh'] else None, env, handler_resource(node)),
                       slash_mode=node['slash'])
@@ -340,7 +369,7 @@ def build_nested(env, node):
                 render = explicit_render(c['rid'])
             elif c['render'] == 'arg':
                 render = 'tmpl-' + c['rid']
-            route = Route(c['pattern'], make_endpoint(env, c), render, middlewares=[make_mw_instance(env, m) for m in c['mws']],
+            route = Route(c['pattern'], make_endpoint(env, c), render, middlewares=[make_mw_instance(env, m, share=True) for m in c['mws']],
                           resources=res_objects(env, c['resources'], c['rid']), slash_mode=c['slash'], **kw)
             app.add(route, inherit_slashes=c['inherit'])
         else:
@@ -473,7 +502,7 @@ def absolute_checks(tree, flat, a):
         f = byrid.get(eps[0])
         first_ep = [i for i, e in enumerate(a['events']) if e[0] == 'ep'][0]
         ran = [e[1] for e in a['events'][:first_ep] if e[0] == 'mw']
-        want = [m['label'] for m in tree['mws']] + [m['label'] for m in f['mws']]
+        want = [m.get('trace_label') or m['label'] for m in tree['mws']] + [m.get('trace_label') or m['label'] for m in f['mws']]
         if ran != want:
             return 'middleware-order', 'middlewares ran %r before %s, the merged declaration says %r' % (ran, eps[0], want)
         if a['status'] == 200 and len(eps) == 1 and f['render'] is not None and md.BEHAVIOURS[f['beh']][2] == 'response':
@@ -583,7 +612,12 @@ def note_features(sh, node, depth=1, root=None):
                 sh.hit('rebind:requested')
             if c['prefix'] == '/':
                 sh.hit('prefix:root-slash')
+            if not c['prefix'].isascii():
+                sh.hit('prefix:outside-ascii')
             sub = c['node']
+            for m in sub['mws']:
+                if m.get('alias_of') or m.get('aliased'):
+                    sh.hit('same-middleware-object-on-two-levels:' + ('unique' if m['unique'] else 'nonunique'))
             if any(k in root['resources'] for k in sub['resources']):
                 sh.hit('shadow:outer-over-app')
             if sub['factory']:
